@@ -1071,8 +1071,9 @@ Proof.
   destruct (tpc th) eqn:Epc; try discriminate.
   - (* Idle with an op left *)
     exists t. unfold step. rewrite Hth. unfold step_thread. rewrite Epc.
-    destruct (nth_error (prog th) (opi th)) as [[| |]|]; try discriminate.
-    rewrite g_join, Hev. simpl. discriminate.
+    destruct (nth_error (prog th) (opi th)) as [[| |]|]; [discriminate | | | discriminate Hd].
+    + unfold do_signal. destruct (signal_returns_early (events s)); discriminate.
+    + rewrite g_join, Hev. simpl. discriminate.
   - (* PPublish: the producer holding the head ticket can move *)
     destruct (a_ppub _ HA _ _ _ Hth Epc) as (x & Ex & Px & _).
     destruct (a_pop _ HA) as [PL PP].
